@@ -523,8 +523,10 @@ impl Compress {
     }
 
     /// Compress a name starting at `offset` using the suffix dictionary `dict`
-    /// `base_offset` is an additional offset added to the location stored in
-    /// the dictionary. This function assumes that the input is trusted and
+    /// `base_offset` is the location, in the final packet, of the first byte
+    /// this function appends to `compressed`: the locations stored in the
+    /// dictionary are relative to the output, not to the input.
+    /// This function assumes that the input is trusted and
     /// uncompressed, and doesn't perform any checks. Returns the length of
     /// the name as well as the location right after the uncompressed name.
     pub fn copy_compressed_name_with_base_offset(
@@ -542,10 +544,11 @@ impl Compress {
             if label_len & 0xc0 == 0xc0 {
                 panic!("copy_compressed_name() called on an already compressed name");
             }
-            if let Some(ref_offset) =
-                dict.insert(&packet[offset..final_offset], base_offset + offset)
-            {
-                assert!(offset < 65536 >> 2); // Checked in dict.insert()
+            if let Some(ref_offset) = dict.insert(
+                &packet[offset..final_offset],
+                base_offset + (compressed.len() - initial_compressed_len),
+            ) {
+                assert!(ref_offset < 65536 >> 2); // Checked in dict.insert()
                 compressed.push((ref_offset >> 8) as u8 | 0xc0);
                 compressed.push((ref_offset & 0xff) as u8);
                 break;
@@ -573,7 +576,8 @@ impl Compress {
         packet: &[u8],
         offset: usize,
     ) -> CompressedNameResult {
-        Self::copy_compressed_name_with_base_offset(dict, compressed, packet, offset, 0)
+        let base_offset = compressed.len();
+        Self::copy_compressed_name_with_base_offset(dict, compressed, packet, offset, base_offset)
     }
 }
 
